@@ -183,6 +183,11 @@ def enumerate_case(case, mode, errnos, rep, tier, rng):
                 sb.restore(S0)
                 r = sb.run(case.args, inject=inj)
                 rep.count("timeout-retried:%s" % ("again" if r.get("timeout") else "finished"))
+            if mode == "kill" and r["rc"] == 0:
+                # a killed process does not exit with status 0: the call numbered `when` was not reached in this run
+                # (the number of write calls varies a little from run to run), so nothing was injected
+                rep.count("kill-not-delivered")
+                continue
             T = canon_obj(sb, oroot)
             cls = "old" if T == T_old else ("new" if T == T_new else "other")
             label = step_label(sb, c, oroot, v)
